@@ -21,14 +21,14 @@ import (
 // delegate rewards + unpaid provider reward); faucetsc records no pools (0).
 func liabilities(ls []world.Leaf) map[string]*big.Int {
 	out := map[string]*big.Int{vestingsc.ADDRESS: new(big.Int), zcnsc.ADDRESS: new(big.Int), faucetsc.ADDRESS: new(big.Int)}
-	vp := vestingsc.VerifPoolKeyPrefix()
+	vp := vestingsc.VerifMiscPoolKeyPrefix()
 	sp := stakepool.StakePoolKey(spenum.Authorizer, "")
 	add := func(c string, x uint64) { out[c].Add(out[c], new(big.Int).SetUint64(x)) }
 	for _, l := range ls {
 		k := world.Tap.KeyOf(l.Path)
 		switch {
 		case strings.HasPrefix(k, vp):
-			p, err := vestingsc.VerifDecodePool(l.Value)
+			p, err := vestingsc.VerifMiscDecodePool(l.Value)
 			if err != nil {
 				ev.Fatal("vesting pool %s: %v", k, err)
 			}
